@@ -226,6 +226,32 @@ class View:
         self.top = {'name': None, 'items': list(s['items']),
                     'keytype': s.get('keytype') or 'basic-key', 'datatype': s.get('datatype')}
 
+    def clone(self):
+        import copy
+        v = View.__new__(View)
+        v.s = self.s
+        v.abstract = {k: list(x) for k, x in self.abstract.items()}
+        v.types = dict(self.types)
+        v.top = self.top
+        return v
+
+    def add_component(self, comp):
+        """comp: {'types': [stype() | ('abstract', name), ...], 'requires': [...]} - what a
+        component package defines; types already known are left alone (idempotent import)"""
+        for t in comp['types']:
+            if isinstance(t, (tuple, list)):
+                self.abstract.setdefault(t[1], [])
+        for t in comp['types']:
+            if isinstance(t, (tuple, list)) or t['name'] in self.types:
+                continue
+            base = self.types[t['extends']] if t.get('extends') else None
+            items = (list(base['items']) if base else []) + list(t['items'])
+            kt = t.get('keytype') or (base['keytype'] if base else 'basic-key')
+            dt = t.get('datatype') or (base['datatype'] if base else None)
+            self.types[t['name']] = {'name': t['name'], 'items': items, 'keytype': kt, 'datatype': dt}
+            if t.get('implements'):
+                self.abstract[t['implements']].append(t['name'])
+
     def attr_of(self, it):
         if it.get('attr'):
             return it['attr']
